@@ -299,10 +299,34 @@ theorem allocVars_spec (σ : Store) (nvars nwild : Nat) :
   · rw [b2 v (by rw [a1]; omega), a2 v hv]
   · exact b3 v (a3 v (inert_of_ge hv))
 
+/-- `spineFollow` does nothing on a term none of whose variables is bound -/
+theorem spineFollow_unbound {σ : Store} (t : Term)
+    (h : ∀ v, VarIn v t → (getVar σ v).bound = none) : spineFollow σ t = t := by
+  fun_induction spineFollow σ t with
+  | case1 o l r ho ih =>
+    have hr := ih (fun v hv => h v (VarIn.app (List.mem_cons_of_mem _ List.mem_cons_self) hv))
+    rw [hr]
+    cases l with
+    | var v =>
+      simp only []
+      rw [followT_unbound (h v (VarIn.app List.mem_cons_self VarIn.var))]
+    | app p args => rfl
+  | case2 => rfl
+  | case3 v => exact followT_unbound (h v VarIn.var)
+  | case4 => rfl
+
+/-- the freshly allocated variables are unbound, so `spineFollow` leaves the shifted body alone -/
+theorem spineFollow_allocVars (σ : Store) (nvars nwild : Nat) (t : Term) :
+    spineFollow (allocVars σ nvars nwild) (t.shift σ.vars.length) = t.shift σ.vars.length := by
+  apply spineFollow_unbound
+  intro v hv
+  obtain ⟨w, _, e⟩ := varIn_shift _ hv
+  exact ((allocVars_spec σ nvars nwild).2.2 v (by omega)).1
+
 theorem instantiate_eq {L : Lang} {n : Nat} {σ : Store} {s : Schema} (hc : s.constraints = []) :
     instantiate L n σ s = fix L n (allocVars σ s.nvars s.nwild) (s.body.shift σ.vars.length) true := by
   unfold instantiate
-  simp only [hc, addConstraints]
+  simp only [hc, addConstraints, spineFollow_allocVars]
 
 /-- instantiating a constraint-free schema: the store only grows by the fresh variables,
 the result is the body over the fresh variables -/
